@@ -47,6 +47,7 @@ def run(ctx):
         crs = crates(ctx, cfg)
         ctx.count("functions_analysed", sum(1 for b in crate.bodies if b.d.get("impl_adt") in (POOL, ARENA, FCM)))
         intern_memo(ctx, crate, crs, tag)
+        dedup_map_types(ctx, crate, tag)
         append_only(ctx, crate, crs, tag)
         chunk_stability(ctx, crate, crs, tag)
         no_ref_escape(ctx, crate, tag)
@@ -83,13 +84,24 @@ def intern_memo(ctx, crate, crs, tag):
                     if d["k"] == "call" and d["bb"] == li and any(isinstance(e, dict) and e.get("as") == "Some" for e in d.get("proj", [])):
                         ok_hit = True
         ctx.ob("intern-memo" + tag, b.key, "hit-returns-stored-id", ok_hit, b.loc(), "the id found in %s is returned" % mp)
-        # insert(value, id) with id = result of this alloc, on every path after the alloc; returned id is that id
-        ok_ins = False
+        # insert(value, id) with id = result of this alloc, on every path after *every* alloc of the function
+        ok_ins = bool(allocs)
         for ai, at in allocs:
+            this = False
             for ii, it in inserts:
                 idd = b.origin(it["args"][2])
                 if idd["k"] == "call" and idd["bb"] == ai and postdominated_modulo_errors(b, ai, [ii]):
-                    ok_ins = True
+                    this = True
+            ok_ins = ok_ins and this
+        # the map is keyed by the interned value itself (not by a digest of it): lookup and insert keys derive from the
+        # function's value arguments through references / clones / tuples only
+        ok_key = bool(lookups) and bool(inserts)
+        for li, lt in lookups:
+            ok_key = ok_key and _is_value_of_args(b, lt["args"][1])
+        for ii, it in inserts:
+            ok_key = ok_key and _is_value_of_args(b, it["args"][1])
+        ctx.ob("intern-memo" + tag, b.key, "keyed-by-the-value-itself", ok_key, b.loc(),
+               "the dedup map is probed and filled with the interned value itself")
         ctx.ob("intern-memo" + tag, b.key, "records-fresh-id", ok_ins, b.loc(),
                "the freshly allocated id is recorded in %s on every path" % mp)
         rets = [b.origin(s["r"]["o"]) for i, j, s in b.assigns() if s["p"]["l"] == 0 and s["r"]["k"] == "use"]
@@ -118,6 +130,19 @@ def intern_memo(ctx, crate, crs, tag):
         ctx.ob("intern-memo" + tag, b.key, "indexes:%s" % arena, ok, b.loc(), "resolves the id in the arena it was allocated from")
 
 
+VALUE_PRESERVING = q.TRANSPARENT | {"std::clone::Clone::clone", "std::convert::AsRef::as_ref", "std::convert::Into::into",
+                                    "std::borrow::ToOwned::to_owned", "std::string::ToString::to_string", "std::borrow::Borrow::borrow"}
+
+
+def _is_value_of_args(b, op, depth=0):
+    d, ch = q.origin_thru(b, op, transparent=VALUE_PRESERVING)
+    if d["k"] == "arg" and d["l"] >= 2:
+        return True
+    if d["k"] == "rvalue" and d["r"]["k"] == "agg" and d["r"].get("ak") == "tuple" and depth < 3:
+        return all(_is_value_of_args(b, o, depth + 1) for o in d["r"]["ops"])
+    return False
+
+
 def mutable_storage_access(b):
     """Sites in b that obtain mutable access to Arena.chunks: UnsafeCell::get / get_mut / raw_get on the field."""
     out = []
@@ -130,6 +155,15 @@ def mutable_storage_access(b):
             if q.mentions_field(d, ARENA, "chunks"):
                 out.append((i, t, f["name"]))
     return out
+
+
+def dedup_map_types(ctx, crate, tag):
+    a = crate.adts.get(POOL)
+    want = {"names_to_ids": "FrozenCopyMap<N, ", "string_to_ids": "FrozenCopyMap<std::string::String, ", "version_set_to_id": "FrozenCopyMap<(resolvo::internal::id::NameId, VS), "}
+    for f in (a["variants"][0]["fields"] if a else []):
+        if f["name"] in want:
+            ok = want[f["name"]] in f["ty"].replace("resolvo::NameId", "resolvo::internal::id::NameId")
+            ctx.ob("intern-memo" + tag, POOL, "map-key-type:%s" % f["name"], ok, "", "%s: %s" % (f["name"], f["ty"][:110]))
 
 
 def append_only(ctx, crate, crs, tag):
